@@ -37,7 +37,7 @@ def jobs(tier, seed):
     ld = lbc.c04_jobs(tier, seed, prop="C07", prefix="c07it", group_prefix="lbc_frame_stream") + lbc.cb_jobs(tier, seed, prop="C07", prefix="c07cb", group_prefix="lbc_frame_callbacks") \
         + lbc.c03_jobs(tier, seed, prop="C07", prefix="c07ml", group_prefix="lbc_frame_finish")
     if tier == "quick":
-        ld = [j for i, j in enumerate(ld) if i % 4 == 0]
+        ld = [j for j in ld if lbc.pick(j.name, 4, 0)]
     else:
-        ld = [j for i, j in enumerate(ld) if i % 3 == 2]
+        ld = [j for j in ld if lbc.pick(j.name, 3, 2)]
     return out + ld
